@@ -162,6 +162,7 @@ func TestEphemeral(t *testing.T) {
 	var wg sync.WaitGroup
 	var flush sync.Mutex
 	jit := vt.StartJitter()
+	jit.Probe(func() { _, _ = cli.Get(context.Background(), "/verif-probe") }, 200*time.Millisecond)
 	defer jit.Stop()
 	for w := 0; w < vt.EnvInt("VERIF_PAR", 32); w++ {
 		wg.Add(1)
